@@ -191,6 +191,10 @@ func NewStaticUpstreams(c casketfile.Dispenser, host string) ([]Upstream, error)
 		}
 
 		if upstream.HealthCheck.Path != "" {
+			if upstream.HealthCheck.Interval <= 0 {
+				// time.NewTicker panics (in the worker's goroutine) otherwise
+				return upstreams, c.Err("health_check_interval must be a positive duration")
+			}
 			upstream.HealthCheck.Client = http.Client{
 				Timeout: upstream.HealthCheck.Timeout,
 				Transport: &http.Transport{
